@@ -77,7 +77,9 @@ func marshalUnits() []UnitPlan {
 	const fn = "ircserver.IRCServer.Marshal"
 	var units []UnitPlan
 	mk := func(prove, assume []string) {
-		units = append(units, UnitPlan{fn, vc.UnitOpts{Asserts: true, Groups: prove, AssumeGroups: assume}})
+		// the loopframe obligations of Marshal depend on the code alone: the config unit of the plan (and the
+		// first unit here) generate them, the others do not repeat them
+		units = append(units, UnitPlan{fn, vc.UnitOpts{Asserts: true, Groups: prove, AssumeGroups: assume, SkipLoopFrame: len(units) > 0}})
 	}
 	cat := func(ls ...[]string) []string {
 		var out []string
